@@ -35,7 +35,9 @@ class VerifKeyError(KeyError):
     pass
 
 
-EXC_TYPES = {"ValueError": ValueError, "VerifError": VerifError, "VerifKeyError": VerifKeyError,
+from pynenc.exceptions import RetryError as _RetryError
+
+EXC_TYPES = {"RetryError": _RetryError, "ValueError": ValueError, "VerifError": VerifError, "VerifKeyError": VerifKeyError,
              "RuntimeError": RuntimeError, "TypeError": TypeError}
 
 
